@@ -255,8 +255,8 @@ class _Gen:
         if self.linear:
             lin = ["add", "sub", "neg", "flatten", "sumall", "catflat", "t", "unsq", "stride2", "expand2", "sumdim", "add", "sub"]
             op = lin[rng.integers(len(lin))]
-        if self.smooth and op in ("relu", "abs", "lrelu"):
-            op = "tanh"
+        if self.smooth and op in ("relu", "abs", "lrelu", "detach"):
+            op = "tanh"  # (finite differences see through detach(): not comparable with autograd there)
         node = {"op": op, "args": []}
         nargs = 2 if op in BINARY else (0 if op == "const" else 1)
 
